@@ -26,6 +26,7 @@ CONSTANTS K,           \* number of robust constraints of model 1 that can be ma
           MaxSteps,
           WithModel2,  \* include a second model and the cross-model misuse actions
           WithLate,    \* include the late random variable actions
+          WithFail,    \* include the contradictory row and the result reads
           Closing      \* TRUE: the last steps of a history are forced to be objective (if missing) and solve
 
 Lists == {"lin", "pws", "cvx", "ip", "other", "bounds"}
@@ -45,13 +46,15 @@ VARIABLES sup,      \* sup[l]: items currently in list l of model 1's support mo
           pupd, primalGen,   \* ro-level cache: dirty flag, generation the cached formula was compiled from
           sol,      \* [kind: "none"|"ok"|"fail", gen, via]
           m2,       \* second model: [st: number of constraints added, solved: BOOLEAN]
-          poisoned, \* a misuse happened on model 1 that must prevent any later solution
+          poisoned, \* the contradictory row t[1] <= -20 was added: the model is infeasible, every later solve must FAIL
+          rcDupd, rcDualGen,  \* dual cache of the inner (rc) model: dirty flag, generation of the declaration it was built from
+          dualServed, \* ghost: generation of the dual program returned by the last do_math(primal=False); -1 = none
           wrow,     \* late random variable w and the row s*w <= 1 on it: "none" | "declared" (w exists) | "st" (row added);
                     \* wcover: the set that protects the row was captured when w already existed
           wcover,
           hist, out
 
-vars == <<sup, cons, obj, gen, pupd, primalGen, sol, m2, poisoned, wrow, wcover, hist, out>>
+vars == <<sup, cons, obj, gen, pupd, primalGen, sol, m2, poisoned, rcDupd, rcDualGen, dualServed, wrow, wcover, hist, out>>
 
 -----------------------------------------------------------------------------
 Snapshot(s) == UNION {s[l] : l \in Lists}
@@ -69,6 +72,7 @@ Init ==
     /\ sol = [kind |-> "none", gen |-> -1]
     /\ m2 = [st |-> 0, solved |-> FALSE]
     /\ poisoned = FALSE /\ wrow = "none" /\ wcover = FALSE
+    /\ rcDupd = TRUE /\ rcDualGen = -1 /\ dualServed = -1
     /\ hist = <<>> /\ out = "ok"
 
 InClosing == Closing /\ (Len(hist) = MaxSteps - 1 \/ (Len(hist) = MaxSteps - 2 /\ obj.kind = "none"))
@@ -81,14 +85,14 @@ ForAll(k, S) ==
     /\ sup' = Define(sup, S)
     /\ cons' = [cons EXCEPT ![k].decl = S, ![k].eff = Snapshot(Define(sup, S))]
     /\ out' = "ok" /\ Log("forall", <<k, SetSeq(S)>>, "ok")
-    /\ UNCHANGED <<obj, gen, pupd, primalGen, sol, m2, poisoned, wrow, wcover>>
+    /\ UNCHANGED <<obj, gen, pupd, primalGen, sol, m2, poisoned, rcDupd, rcDualGen, dualServed, wrow, wcover>>
 
 St(k) ==
     /\ More /\ cons[k].made /\ ~cons[k].st
     /\ cons' = [cons EXCEPT ![k].st = TRUE]
     /\ gen' = gen + 1 /\ pupd' = TRUE
     /\ out' = "ok" /\ Log("st", <<k>>, "ok")
-    /\ UNCHANGED <<sup, obj, primalGen, sol, m2, poisoned, wrow, wcover>>
+    /\ UNCHANGED <<sup, obj, primalGen, sol, m2, poisoned, rcDupd, rcDualGen, dualServed, wrow, wcover>>
 
 \* objective: min(sum t) or minmax(sum t, S); a second objective raises and changes nothing
 SetObjCore(kind, S) ==
@@ -103,7 +107,7 @@ SetObjCore(kind, S) ==
                ELSE /\ sup' = sup /\ wcover' = wcover
                     /\ obj' = [kind |-> kind, decl |-> NoSet, eff |-> NoSet]
             /\ gen' = gen + 1 /\ pupd' = TRUE
-    /\ UNCHANGED <<cons, primalGen, sol, m2, poisoned, wrow>>
+    /\ UNCHANGED <<cons, primalGen, sol, m2, poisoned, rcDupd, rcDualGen, dualServed, wrow>>
 
 \* what formulation needs: an objective, and a set (own or default) for every robust row in the model
 SetOf(k) == IF cons[k].eff # NoSet THEN cons[k].eff ELSE obj.eff
@@ -114,26 +118,62 @@ Formulable == obj.kind # "none" /\ \A k \in CIds : cons[k].st => SetOf(k) # NoSe
 DeclSnapshot == [decls |-> [k \in CIds |-> IF cons[k].st THEN SetSeq(DeclOf(k)) ELSE <<"absent">>],
                  wrow |-> wrow = "st"]
 
-\* ro.Model.do_math(primal=True): cache hit | re-expansion
+\* ro.Model.do_math(primal=True): cache hit | re-expansion.  A re-expansion resets and refills the inner (rc) model,
+\* whose st() marks ITS caches dirty (rcDupd).
+WillReexpand == Formulable /\ ~(primalGen >= 0 /\ ~pupd)
+DupdAfter == IF WillReexpand THEN TRUE ELSE rcDupd          \* rc_model.dupdate after the primal was ensured
+GenAfter == IF WillReexpand THEN gen ELSE primalGen          \* generation of the primal the rc model then holds
 Compile ==
     IF ~Formulable THEN /\ UNCHANGED <<pupd, primalGen>>
     ELSE IF primalGen >= 0 /\ ~pupd
          THEN UNCHANGED <<pupd, primalGen>>               \* CacheHit
          ELSE pupd' = FALSE /\ primalGen' = gen                        \* Reexpand
 
+\* exponential cones in the compiled program (gcp.Model.do_math clears dupdate only on the exp-cone path, gcp.py:267-380)
+HasXmat == \/ \E k \in CIds : cons[k].st /\ SetOf(k) \cap {"ex", "xb"} # {}
+           \/ obj.eff \cap {"ex", "xb"} # {}
+
+\* ro.Model.do_math(primal=False) (ro.py:362-368): ensure the primal, then ask the rc model for its dual, which is cached
+\* behind rc_model.dupdate (gcp.py:270)
+DualStep ==
+    IF ~Formulable THEN UNCHANGED <<rcDupd, rcDualGen, dualServed>>
+    ELSE IF rcDualGen >= 0 /\ ~DupdAfter
+         THEN /\ dualServed' = rcDualGen /\ rcDupd' = DupdAfter /\ UNCHANGED rcDualGen        \* rc dual cache hit
+         ELSE /\ rcDualGen' = GenAfter /\ dualServed' = GenAfter
+              /\ rcDupd' = IF HasXmat THEN FALSE ELSE DupdAfter
+
 DoMath(primal) ==
     /\ More /\ Compile
+    /\ IF primal THEN rcDupd' = DupdAfter /\ UNCHANGED <<rcDualGen, dualServed>> ELSE DualStep
     /\ out' = IF Formulable THEN "ok" ELSE "err"
     /\ Log(IF primal THEN "do_math" ELSE "do_math_dual", <<>>, IF Formulable THEN "ok" ELSE "err")
     /\ UNCHANGED <<sup, cons, obj, gen, sol, m2, poisoned, wrow, wcover>>
 
+\* solve never raises on an infeasible model: it returns, reports that no solution is available, and results cannot be read
 SolveCore(via) == \* via: "solve" (exact cone solver) | "soc_solve" (SOC approximation of exponential cones)
-    /\ Compile
+    /\ Compile /\ rcDupd' = DupdAfter
     /\ IF ~Formulable
        THEN /\ out' = "err" /\ Log(via, DeclSnapshot, "err") /\ UNCHANGED <<sol>>
+       ELSE IF poisoned
+       THEN /\ out' = "ok" /\ Log(via, DeclSnapshot, "fail")
+            /\ sol' = [kind |-> "fail", gen |-> gen]
        ELSE /\ out' = "ok" /\ Log(via, DeclSnapshot, "ok")
             /\ sol' = [kind |-> "ok", gen |-> IF primalGen >= 0 /\ ~pupd THEN primalGen ELSE gen]
-    /\ UNCHANGED <<sup, cons, obj, gen, m2, poisoned, wrow, wcover>>
+    /\ UNCHANGED <<sup, cons, obj, gen, m2, poisoned, rcDualGen, dualServed, wrow, wcover>>
+
+\* m.st(t[1] <= -20) against t >= -10: the model becomes infeasible (a deterministic row: no set involved)
+Contradict ==
+    /\ More /\ ~poisoned
+    /\ poisoned' = TRUE /\ gen' = gen + 1 /\ pupd' = TRUE
+    /\ out' = "ok" /\ Log("contradict", <<>>, "ok")
+    /\ UNCHANGED <<sup, cons, obj, primalGen, sol, m2, rcDupd, rcDualGen, dualServed, wrow, wcover>>
+
+\* m.get(), t.get(), t[1].get(): readable exactly when the LAST solve produced a solution (C17: results of an unsolved or
+\* failed model cannot be read - also when an earlier solve of the same model had succeeded)
+Read ==
+    /\ More
+    /\ out' = (IF sol.kind = "ok" THEN "ok" ELSE "err") /\ Log("read", <<>>, IF sol.kind = "ok" THEN "ok" ELSE "err")
+    /\ UNCHANGED <<sup, cons, obj, gen, pupd, primalGen, sol, m2, poisoned, rcDupd, rcDualGen, dualServed, wrow, wcover>>
 
 SetObj(kind, S) == More /\ SetObjCore(kind, S)
 
@@ -143,22 +183,22 @@ SetObj(kind, S) == More /\ SetObjCore(kind, S)
 \* set was captured before w existed the term s*w is silently dropped (wcover = FALSE).
 LateRvar == /\ More /\ wrow = "none"
             /\ wrow' = "declared" /\ out' = "ok" /\ Log("late_rvar", <<>>, "ok")
-            /\ UNCHANGED <<sup, cons, obj, gen, pupd, primalGen, sol, m2, poisoned, wcover>>
+            /\ UNCHANGED <<sup, cons, obj, gen, pupd, primalGen, sol, m2, poisoned, rcDupd, rcDualGen, dualServed, wcover>>
 LateRow == /\ More /\ wrow = "declared" /\ obj.kind = "minmax"
            /\ wrow' = "st" /\ gen' = gen + 1 /\ pupd' = TRUE
            /\ out' = "ok" /\ Log("late_row", <<>>, "ok")
-           /\ UNCHANGED <<sup, cons, obj, primalGen, sol, m2, poisoned, wcover>>
+           /\ UNCHANGED <<sup, cons, obj, primalGen, sol, m2, poisoned, rcDupd, rcDualGen, dualServed, wcover>>
 Solve(via) == More /\ SolveCore(via)
 
 \* ------------------------------------------------------------------ second model and misuse (C17)
 M2St   == /\ More /\ WithModel2 /\ m2.st < 2
           /\ m2' = [m2 EXCEPT !.st = @ + 1, !.solved = FALSE]
           /\ out' = "ok" /\ Log("m2_st", <<>>, "ok")
-          /\ UNCHANGED <<sup, cons, obj, gen, pupd, primalGen, sol, poisoned, wrow, wcover>>
+          /\ UNCHANGED <<sup, cons, obj, gen, pupd, primalGen, sol, poisoned, rcDupd, rcDualGen, dualServed, wrow, wcover>>
 M2Solve == /\ More /\ WithModel2 /\ ~m2.solved
            /\ m2' = [m2 EXCEPT !.solved = TRUE]
            /\ out' = "ok" /\ Log("m2_solve", <<>>, "ok")
-           /\ UNCHANGED <<sup, cons, obj, gen, pupd, primalGen, sol, poisoned, wrow, wcover>>
+           /\ UNCHANGED <<sup, cons, obj, gen, pupd, primalGen, sol, poisoned, rcDupd, rcDualGen, dualServed, wrow, wcover>>
 \* each of these must raise and leave BOTH models as they were
 Misuses == {"st_foreign_constr", "forall_foreign_set", "add_foreign_var", "minmax_foreign_set",
             "get_unsolved", "obj_nonscalar", "st_foreign_robust",
@@ -171,7 +211,7 @@ Misuse(w) ==
     /\ (w = "forall_foreign_set" => \E k \in CIds : cons[k].made /\ ~cons[k].st)
     /\ (w \in {"minmax_foreign_set", "obj_nonscalar"} => obj.kind = "none")
     /\ out' = "err" /\ Log("misuse", <<w>>, "err")
-    /\ UNCHANGED <<sup, cons, obj, gen, pupd, primalGen, sol, m2, poisoned, wrow, wcover>>
+    /\ UNCHANGED <<sup, cons, obj, gen, pupd, primalGen, sol, m2, poisoned, rcDupd, rcDualGen, dualServed, wrow, wcover>>
 
 DoSt == \E k \in CIds : St(k)
 DoForAll == \E k \in CIds, S \in SetChoices : ForAll(k, S)
@@ -180,6 +220,7 @@ DoDoMath == DoMath(TRUE) \/ DoMath(FALSE)
 DoSolve == Solve("solve") \/ Solve("soc_solve")
 DoMisuse == \E w \in Misuses : Misuse(w)
 Body == DoSt \/ DoForAll \/ DoSetObj \/ DoDoMath \/ DoSolve \/ M2St \/ M2Solve \/ DoMisuse \/ (WithLate /\ (LateRvar \/ LateRow))
+        \/ (WithFail /\ (Contradict \/ Read))
 
 CloseObj == /\ Closing /\ Len(hist) = MaxSteps - 2 /\ obj.kind = "none"
             /\ (SetObjCore("min", {}) \/ \E S \in SetChoices : SetObjCore("minmax", S))
@@ -204,9 +245,11 @@ LateComponentCovered == wrow = "st" => wcover
 SolutionCurrent == sol.kind = "ok" => sol.gen <= gen
 SolveUsesCurrent == (Len(hist) > 0 /\ hist[Len(hist)].act \in {"solve", "soc_solve"} /\ out = "ok") => sol.gen = gen
 CacheCoherent == (primalGen >= 0 /\ ~pupd) => primalGen = gen
+\* C08/C09/C19: the dual program returned by do_math(primal=False) belongs to the current declaration
+DualCurrent == (Len(hist) > 0 /\ hist[Len(hist)].act = "do_math_dual" /\ out = "ok") => dualServed = gen
 
 \* C17: misuse raises, never produces a solution, changes nothing (checked as action property)
-MisuseIsolated == [][DoMisuse => UNCHANGED <<sup, cons, obj, gen, pupd, primalGen, sol, m2>>]_vars
+MisuseIsolated == [][DoMisuse => UNCHANGED <<sup, cons, obj, gen, pupd, primalGen, sol, m2, rcDupd, rcDualGen>>]_vars
 Model2Isolated == [][(M2St \/ M2Solve) => UNCHANGED <<sup, cons, obj, gen, pupd, primalGen, sol>>]_vars
 
 -----------------------------------------------------------------------------
@@ -219,5 +262,5 @@ StateRec ==
      cons |-> [k \in CIds |-> [st |-> cons[k].st, decl |-> SetSeq(DeclOf(k)), eff |-> SetSeq(SetOf(k))]],
      obj |-> obj.kind, formulable |-> Formulable, solved |-> sol.kind = "ok" /\ sol.gen = gen]
 ExportEnd == (Len(hist) = MaxSteps) => PrintT(ToJson(StateRec))
-View == <<sup, cons, obj, gen, pupd, primalGen, sol, m2, poisoned, wrow, wcover, out>>
+View == <<sup, cons, obj, gen, pupd, primalGen, sol, m2, poisoned, rcDupd, rcDualGen, dualServed, wrow, wcover, out>>
 =============================================================================
